@@ -76,12 +76,31 @@ Definition copy_cell_ok (cell : list kind) : bool :=
 Definition components_ok (ks : list kind) : bool :=
   forallb (fun k => mem_kind k ks) reactant_kinds.
 
+Definition save_row_diag (r : save_row) : bool :=
+  kind_eqb (sv_n r) (sv_flag r) && kind_eqb (sv_fn r) (sv_flag r) && kind_eqb (sv_map r) (sv_flag r)
+  && kind_eqb (sv_from r) (sv_flag r) && kind_eqb (sv_end r) (sv_flag r).
+
+Definition save_count (k : kind) (tbl : list save_row) : nat :=
+  length (filter (fun r => kind_eqb (sv_flag r) k) tbl).
+
+Definition saver_table_ok (tbl : list save_row) : bool :=
+  forallb save_row_diag tbl
+  && forallb (fun r => mem_kind (sv_flag r) savable_kinds) tbl
+  && forallb (fun k => Nat.eqb (save_count k tbl) 1) savable_kinds.
+
+(* do_mixes: every Rxn_mix(Rxn_<X>_mix_map, Rxn_<Y>_map) has X = Y, for the 7 kinds that can be mixed *)
+Definition mixable_kinds : list kind := [KSol; KExch; KGas; KKin; KPP; KSS; KSurf].
+Definition mixes_ok (l : list (kind * kind)) : bool :=
+  forallb (fun p => kind_eqb (fst p) (snd p)) l
+  && forallb (fun k => Nat.eqb (length (filter (fun p => kind_eqb (fst p) k) l)) 1) mixable_kinds.
+
 Definition tables_ok (T : gen_tables) : bool :=
   copy_shape_ok (g_copy_shape T) && copies_shape_ok (g_copies_shape T)
   && del_table_ok (g_delete T) && g_delete_resets T
   && copy_table_ok (g_copy T) && g_copy_resets T
   && copy_kw_ok (g_copy_kw T) && copy_cell_ok (g_copy_cell T)
-  && components_ok (g_components T).
+  && components_ok (g_components T)
+  && saver_table_ok (g_saver T) && mixes_ok (g_mixes T).
 
 (** ** soundness of the predicates *)
 Section TieProofs.
@@ -335,6 +354,96 @@ Section TieProofs.
     rewrite G. apply functional_extensionality. intro k. reflexivity.
   Qed.
 
+  (** *** saver *)
+  Lemma loop_copy_eq (m : emap) n e :
+      fold_left (fun m i => rxn_copy m n i) (zrange (n + 1) e) m = rxn_copies m n e.
+  Proof.
+    unfold rxn_copies. destruct (e <=? n) eqn:Eg.
+    - apply Z.leb_le in Eg. rewrite zrange_nil by lia. reflexivity.
+    - assert (forall i, In i (zrange (n + 1) e) -> i <> n) as Hne.
+      { intros i Hi. apply in_zrange in Hi. lia. }
+      revert Hne. generalize (zrange (n + 1) e) as l. intro l.
+      destruct (zfind n m) as [e0|] eqn:Ef.
+      + revert m Ef. induction l as [|x l IH]; intros m Ef Hne; simpl; auto.
+        assert (x <> n) as Hx by (apply Hne; left; reflexivity).
+        unfold rxn_copy at 2. rewrite Ef.
+        apply IH.
+        * rewrite zfind_zins_neq by congruence. exact Ef.
+        * intros i Hi. apply Hne. right. exact Hi.
+      + revert m Ef. induction l as [|x l IH]; intros m Ef Hne; simpl; auto.
+        unfold rxn_copy at 2. rewrite Ef. apply IH; auto.
+        intros i Hi. apply Hne. right. exact Hi.
+  Qed.
+
+  Lemma save_row_diag_eq r : save_row_diag r = true ->
+      sv_n r = sv_flag r /\ sv_fn r = sv_flag r /\ sv_map r = sv_flag r /\ sv_from r = sv_flag r /\ sv_end r = sv_flag r.
+  Proof.
+    unfold save_row_diag. intro H.
+    repeat (apply andb_true_iff in H; destruct H as [H ?]).
+    repeat split; apply kind_eqb_eq; assumption.
+  Qed.
+
+  Lemma saver_row_g_diag (u : use_req) (res : kind -> C) (S : save_struct) (st : store) r :
+      save_row_diag r = true ->
+      saver_row_g (@rxn_copy C) (@rxn_copies C) u res S st r
+      = supd st (sv_flag r) (saver_map (used_kind u (sv_flag r)) (res (sv_flag r)) (S (sv_flag r)) (st (sv_flag r))).
+  Proof.
+    intro H. destruct (save_row_diag_eq r H) as (E1 & E2 & E3 & E4 & E5).
+    unfold saver_row_g, saver_map. rewrite E1, E2, E3, E4, E5.
+    set (kk := sv_flag r).
+    destruct (sa_flag (S kk)); [|symmetry; apply supd_id].
+    destruct (used_kind u kk).
+    - rewrite supd_same. destruct (sv_loop r).
+      + rewrite loop_copy_eq. apply supd_supd.
+      + apply supd_supd.
+    - destruct (sv_loop r).
+      + rewrite loop_copy_eq. reflexivity.
+      + reflexivity.
+  Qed.
+
+  Lemma saver_fold_pointwise (u : use_req) (res : kind -> C) (S : save_struct) tbl :
+      forallb save_row_diag tbl = true ->
+      forall (st : store) k,
+        fold_left (saver_row_g (@rxn_copy C) (@rxn_copies C) u res S) tbl st k
+        = fold_left (fun m r => if kind_eqb (sv_flag r) k then saver_map (used_kind u k) (res k) (S k) m else m) tbl (st k).
+  Proof.
+    induction tbl as [|r tbl IH]; intros H st k; simpl; auto.
+    simpl in H. apply andb_true_iff in H. destruct H as [Hr Ht].
+    rewrite IH by assumption. rewrite saver_row_g_diag by assumption.
+    f_equal. unfold supd. rewrite kind_eqb_sym.
+    destruct (kind_eqb (sv_flag r) k) eqn:E; auto.
+    apply kind_eqb_eq in E. subst k. reflexivity.
+  Qed.
+
+  Lemma save_count_zero k tbl :
+      forallb (fun r => mem_kind (sv_flag r) savable_kinds) tbl = true -> mem_kind k savable_kinds = false ->
+      save_count k tbl = 0%nat.
+  Proof.
+    unfold save_count. induction tbl as [|r tbl IH]; intros H Hk; [reflexivity|].
+    cbn [forallb] in H. apply andb_true_iff in H. destruct H as [Hr Ht].
+    cbn [filter]. destruct (kind_eqb (sv_flag r) k) eqn:E.
+    - apply kind_eqb_eq in E. rewrite E in Hr. rewrite Hk in Hr. discriminate Hr.
+    - apply IH; assumption.
+  Qed.
+
+  Lemma saver_g_ok tbl : saver_table_ok tbl = true ->
+      forall (u : use_req) (res : kind -> C) (S : save_struct) (st : store),
+        saver_g (@rxn_copy C) (@rxn_copies C) tbl u res S st = saver u res S st.
+  Proof.
+    unfold saver_table_ok. intros H u res S st.
+    apply andb_true_iff in H. destruct H as [H Hc]. apply andb_true_iff in H. destruct H as [Hd Hs].
+    apply functional_extensionality. intro k.
+    unfold saver_g, saver. rewrite saver_fold_pointwise by assumption.
+    destruct (mem_kind k savable_kinds) eqn:Ek.
+    - rewrite forallb_forall in Hc.
+      assert (In k savable_kinds) as Hin.
+      { unfold mem_kind in Ek. apply existsb_exists in Ek. destruct Ek as [x [Hx Ex]]. apply kind_eqb_eq in Ex. subst. exact Hx. }
+      specialize (Hc k Hin). apply Nat.eqb_eq in Hc. unfold save_count in Hc.
+      apply (fold_cond_count (fun r => kind_eqb (sv_flag r) k) (saver_map (used_kind u k) (res k) (S k)) tbl (st k)). exact Hc.
+    - pose proof (save_count_zero k tbl Hs Ek) as Hz. unfold save_count in Hz.
+      apply (fold_cond_count (fun r => kind_eqb (sv_flag r) k) (saver_map (used_kind u k) (res k) (S k)) tbl (st k)). exact Hz.
+  Qed.
+
   (** *** the two instantiations of the pipeline coincide *)
   Variable D : Type.
   Variable modify : kind -> D -> C -> C.
@@ -346,15 +455,21 @@ Section TieProofs.
   Theorem gen_prims_eq_hand (T : gen_tables) : tables_ok T = true -> gen_prims C T = hand_prims C.
   Proof.
     unfold tables_ok. intro H.
-    do 8 (apply andb_true_iff in H; destruct H as [H ?]).
+    do 10 (apply andb_true_iff in H; destruct H as [H ?]).
+    assert (rxn_copy_g (g_copy_shape T) = @rxn_copy C) as Hcp.
+    { apply functional_extensionality. intro m. apply functional_extensionality. intro i.
+      apply functional_extensionality. intro j. apply rxn_copy_g_ok. assumption. }
+    assert (rxn_copies_g (g_copies_shape T) = @rxn_copies C) as Hcps.
+    { apply functional_extensionality. intro m. apply functional_extensionality. intro n.
+      apply functional_extensionality. intro n_end. apply rxn_copies_g_ok. assumption. }
     unfold gen_prims, hand_prims. f_equal.
-    - apply functional_extensionality. intro m. apply functional_extensionality. intro n.
-      apply functional_extensionality. intro n_end. apply rxn_copies_g_ok. assumption.
+    - exact Hcps.
+    - rewrite Hcp, Hcps.
+      apply functional_extensionality. intro u. apply functional_extensionality. intro res.
+      apply functional_extensionality. intro S. apply functional_extensionality. intro st.
+      apply saver_g_ok. assumption.
     - apply functional_extensionality. intro opts. apply functional_extensionality. intro st.
-      replace (rxn_copy_g (g_copy_shape T)) with (@rxn_copy C).
-      + rewrite read_copy_g_ok by assumption. apply copy_entities_g_ok. assumption.
-      + apply functional_extensionality. intro m. apply functional_extensionality. intro i.
-        apply functional_extensionality. intro j. symmetry. apply rxn_copy_g_ok. assumption.
+      rewrite Hcp. rewrite read_copy_g_ok by assumption. apply copy_entities_g_ok. assumption.
     - apply functional_extensionality. intro opts. apply functional_extensionality. intro st.
       apply delete_entities_g_ok. assumption.
   Qed.
